@@ -17,7 +17,7 @@ META = {
              "counts (enumerated exhaustively)"),
     "required": ["monitor:roundtrip-bytes", "monitor:roundtrip-str", "monitor:header-bits",
                  "monitor:sweep-header", "monitor:sweep-read", "monitor:truncation", "monitor:magic-corruption",
-                 "monitor:text-rule", "feature:zstd", "feature:non-ascii", "feature:empty-package",
+                 "monitor:text-rule", "monitor:header-encode", "monitor:ready-made-config", "feature:zstd", "feature:non-ascii", "feature:empty-package",
                  "feature:extensions"],
     "reach": ["hugr.envelope:make_envelope", "hugr.envelope:read_envelope", "hugr.envelope:EnvelopeHeader.to_bytes",
               "hugr.envelope:EnvelopeHeader.from_bytes", "hugr.envelope:EnvelopeConfig._make_header"],
@@ -102,17 +102,46 @@ def check_roundtrip(ctx, case, stratum="roundtrip"):
             if back != want:
                 p = diff(want, back)[0]
                 bad("roundtrip-str", p[0], p[1], p[2])
-    # defaults
+    # defaults and the two ready-made configurations
     if pkg_docs(Package.from_bytes(pkg.to_bytes())) != want or pkg_docs(Package.from_str(pkg.to_str())) != want:
         bad("roundtrip-default-config", "defaults", "equal", "different")
+    for nm in ("TEXT", "BINARY"):
+        cfg = getattr(EnvelopeConfig, nm)
+        ctx.count("monitor:ready-made-config")
+        raw = pkg.to_bytes(cfg)
+        if raw[:8] != MAGIC or raw[8] != cfg.format.value or (raw[9] & 1) != int(cfg.zstd is not None) \
+                or (raw[9] >> 6) != 0b01:
+            bad("header-of-ready-made-config", nm, [cfg.format.value, cfg.zstd], list(raw[8:10]))
+        if pkg_docs(Package.from_bytes(raw)) != want:
+            bad("roundtrip-ready-made-config", nm, "equal", "different")
+        if cfg.format.ascii_printable() and cfg.zstd is None and pkg_docs(Package.from_str(pkg.to_str(cfg))) != want:
+            bad("roundtrip-ready-made-config", [nm, "str"], "equal", "different")
     return any(len(m["nodes"]) >= 4 for m in want["modules"])
 
 
 def check_text_rule(ctx):
-    from hugr.envelope import EnvelopeConfig, EnvelopeFormat
+    from hugr.envelope import EnvelopeConfig, EnvelopeFormat, EnvelopeHeader
     from hugr.package import Package
 
     pkg = Package([], [])
+    # the header written for EVERY format (the payload of the MODULE formats cannot be produced here, their
+    # header can): magic, format byte, flags with bit 0 = compressed and bits 7,6 = 0,1; decodes to itself
+    for fmt in EnvelopeFormat:
+        for z in (None, 0, 1, 9, 22):
+            ctx.count("monitor:header-encode")
+            case = {"format": fmt.name, "zstd": z}
+            want = MAGIC + bytes([fmt.value, 0x40 | int(z is not None)])
+            for how, hb in (("EnvelopeHeader.to_bytes", EnvelopeHeader(fmt, z is not None).to_bytes()),
+                            ("EnvelopeConfig._make_header", EnvelopeConfig(fmt, z)._make_header().to_bytes())):
+                if hb != want:
+                    ctx.disc(None, "header-encode", [how, case], want.hex(), hb.hex(), stratum="text", case=case)
+                back = EnvelopeHeader.from_bytes(hb)
+                if (back.format, back.zstd) != (fmt, z is not None):
+                    ctx.disc(None, "header-encode-decode", [how, case], [fmt.name, z is not None],
+                             [back.format.name, back.zstd], stratum="text", case=case)
+        if fmt.ascii_printable() != (fmt.value == 63):
+            ctx.disc(None, "ascii-printable-formats", fmt.name, fmt.value == 63, fmt.ascii_printable(),
+                     stratum="text", case={"format": fmt.name})
     for fmt in EnvelopeFormat:
         for z in (None, 0):
             ctx.count("monitor:text-rule")
